@@ -3,7 +3,7 @@
    Print Assumptions.  Model: Store/C16Index.v; proofs: Store/C16IndexProofs.v. *)
 From Coq Require Import List NArith ZArith Bool Arith Permutation.
 Import ListNotations.
-From GMS Require Import Store.C16Index Store.C16IndexProofs.
+From GMS Require Import Store.C16Index Store.C16IndexProofs Store.C16IndexOrder.
 
 (* The representation invariant [Inv]: index names are unique and, for every index, the raw storage kept under its
    name has no two entries for one row location, every entry points at an existing row whose key tuple it carries,
@@ -45,6 +45,25 @@ Proof.
   exact (lookup_eq_scan td k d p (Inv_run hp h (init n pks) td (Inv_init n pks) H1 H2) H3).
 Qed.
 Print Assumptions C16_index_lookup_equals_filtered_scan.
+
+(* after every history the storage of every index is sorted on the index columns (NULL first): any two entries, the
+   earlier one's key is not greater than the later one's (sortSecondaryIndexes runs at the end of every ApplyEdits) *)
+Theorem C16_index_storage_sorted_after_every_history :
+  forall hp nparts pks h td k d,
+    hist_ok hp (init nparts pks) h = true -> run hp (init nparts pks) h = Ok td ->
+    In (k, d) (defs td) -> sorted_by (nsort d) (stor td (iname d)).
+Proof.
+  intros hp n pks h td k d H1 H2 H3.
+  exact (proj2 (proj2 (Good_run hp h (init n pks) td (Good_init n pks) H1 H2)) k d H3).
+Qed.
+Print Assumptions C16_index_storage_sorted_after_every_history.
+
+(* a history all of whose index names are lower-case never panics (compare the first refutation below) *)
+Theorem C16_no_panic_with_lower_case_index_names :
+  forall hp nparts pks h,
+    hist_ok hp (init nparts pks) h = true -> forallb op_lower h = true -> run hp (init nparts pks) h <> Panic.
+Proof. intros hp n pks h. exact (no_panic hp h (init n pks) (LowInv_init n pks)). Qed.
+Print Assumptions C16_no_panic_with_lower_case_index_names.
 
 (* ---- what the faithful model does NOT satisfy (each witness is replayed on the implementation by the driver) ---- *)
 
